@@ -28,6 +28,13 @@
 #endif
 #include REPO_SRC(compat_futex.c)
 
+#if defined(FLAVOR_BP)
+#define URCU_GP_CTR_NEST_MASK_ALL URCU_BP_GP_CTR_NEST_MASK
+#elif defined(FLAVOR_QSBR)
+#define URCU_GP_CTR_NEST_MASK_ALL (~0UL)
+#else
+#define URCU_GP_CTR_NEST_MASK_ALL URCU_GP_CTR_NEST_MASK
+#endif
 #define MAXOPS 32
 #define NOBJ 8
 struct op { char kind[12]; int k; };
@@ -100,7 +107,9 @@ static void sig_handler(void)
 #else
 		.ctr;
 #endif
-	if (after != before || rcu_read_ongoing() != ongoing_before)
+	/* nesting and rcu_read_ongoing() must be exactly as before; inside a section the whole word (its phase) too */
+	if ((after & URCU_GP_CTR_NEST_MASK_ALL) != (before & URCU_GP_CTR_NEST_MASK_ALL) || rcu_read_ongoing() != ongoing_before
+	    || ((before & URCU_GP_CTR_NEST_MASK_ALL) && after != before))
 		vrt_fail("ORACLE signal handler changed the interrupted thread's reader state (ctr %lx -> %lx)", before, after);
 	vrt_log("\"op\":\"ret\",\"r\":\"sig\"");
 }
@@ -128,6 +137,7 @@ static void *runner(void *arg)
 			rcu_register_thread();
 #endif
 			vrt_op_end();
+			vrt_sig_allow(1);
 #ifdef FLAVOR_QSBR
 			open_cs[p->idx] = cs_next++;	/* qsbr: registered + online = inside an implicit section */
 #endif
@@ -135,6 +145,7 @@ static void *runner(void *arg)
 #ifdef FLAVOR_QSBR
 			open_cs[p->idx] = 0;
 #endif
+			vrt_sig_allow(0);
 			vrt_op_begin("rcu_unregister_thread", VP_BLOCKING);
 			rcu_unregister_thread();
 			vrt_op_end();
